@@ -32,7 +32,11 @@ class Unsupported(Exception):
 EXC = {"ValueError": ".value", "EOFError": ".eof", "OverflowError": ".overflow", "NotImplementedError": ".notImpl",
        "TypeError": ".type", "KeyError": ".key", "AttributeError": ".attr", "AssertionError": ".assertion"}
 
-LEAN_TY = {"int": "Int", "bytes": "Bytes", "bool": "Bool", "stream": "Bytes", "none": "Unit", "pfields": "(List PField)", "pfield": "PField"}
+LEAN_TY = {"int": "Int", "bytes": "Bytes", "bool": "Bool", "stream": "Bytes", "none": "Unit", "pfields": "(List PField)", "pfield": "PField", "ptype": "PType"}
+# module-level collections of proto types: regenerated as Gen.* by harness/extract.py (WireTables.lean)
+TYPE_TABLES = {"WIRE_VARINT_TYPES": "Gen.wireVarintTypes", "WIRE_FIXED_32_TYPES": "Gen.wireFixed32Types",
+               "WIRE_FIXED_64_TYPES": "Gen.wireFixed64Types", "WIRE_LEN_DELIM_TYPES": "Gen.wireLenDelimTypes",
+               "FIXED_TYPES": "Gen.fixedTypes", "PACKED_TYPES": "Gen.packedTypes", "INT_64_TYPES": "Gen.int64Types"}
 OUT = "yielded"     # accumulator of a generator function: the list of values yielded so far
 RESERVED = {"from", "at", "end", "open", "in", "let", "have", "show", "fun", "do", "then", "else", "if", "match", "with",
             "def", "theorem", "by", "where", "local", "section", "namespace", "instance", "class", "structure", "mut"}
@@ -144,6 +148,12 @@ class Tr:
             if isinstance(e.op, ast.Not):
                 return b1, "(!%s)" % self.truthy(a, ta), "bool"
             raise Unsupported("unary operator")
+        if isinstance(e, ast.Compare) and len(e.ops) == 1 and isinstance(e.ops[0], ast.In):
+            b1, a, ta = self.expr(e.left, env)
+            tbl = e.comparators[0]
+            if ta != "ptype" or not isinstance(tbl, ast.Name) or tbl.id not in TYPE_TABLES:
+                raise Unsupported("membership test " + ast.unparse(e))
+            return b1, "(%s.contains %s)" % (TYPE_TABLES[tbl.id], a), "bool"
         if isinstance(e, ast.Compare):
             parts = []
             binds = []
@@ -236,6 +246,13 @@ class Tr:
                 if ta != "bytes":
                     raise Unsupported("len of " + str(ta))
                 return b, "(Py.len %s)" % a, "int"
+            if f.id == "bytearray" and not e.args and not e.keywords:
+                return [], "([] : Bytes)", "bytes"
+            if f.id in ("bytes", "bytearray") and len(e.args) == 1:
+                b, a, ta = self.expr(e.args[0], env)
+                if ta != "bytes":
+                    raise Unsupported("%s() of %s" % (f.id, ta))
+                return b, a, "bytes"
             if f.id == "int" and len(e.args) == 1:
                 b, a, ta = self.expr(e.args[0], env)
                 if ta != "int":
@@ -652,6 +669,12 @@ FRAGMENTS = [
      [("field_number", "int"), ("value", "bytes"), ("output", "bytes")], "output", "bytes"),
     ("len_lendelim", "_len_single", ["proto_type in WIRE_LEN_DELIM_TYPES", "size or serialize_empty or wraps"], (0, 1),
      [("field_number", "int"), ("size", "int")], "size", "int"),
+    # everything of _serialize_single / _len_single after their first statement (the call of _preprocess_single /
+    # _len_preprocessed_single, whose result is the parameter `value` / `size` here): the whole framing decision
+    ("serialize_frame", "_serialize_single", None, (1, None),
+     [("field_number", "int"), ("proto_type", "ptype"), ("value", "bytes"), ("serialize_empty", "bool"), ("wraps", "bool")], None, "bytes"),
+    ("len_frame", "_len_single", None, (1, None),
+     [("field_number", "int"), ("proto_type", "ptype"), ("size", "int"), ("serialize_empty", "bool"), ("wraps", "bool")], None, "int"),
     # tag split of load_fields
     ("fields_tag_split", "load_fields", "True", (3, 5), [("num_wire", "int")], ("number", "wire_type"), ("int", "int")),
 ]
@@ -708,7 +731,10 @@ def translate(path=SRC):
         items.append((sigs[name], fn.body, fn.lineno))
     for lean, fname, test, (lo, hi), params, retvar, rty in FRAGMENTS:
         fn = find_function(tree, fname)
-        body = list(find_branch(fn, test)[lo:hi])
+        stmts = fn.body if test is None else find_branch(fn, test)
+        if test is None and stmts and isinstance(stmts[0], ast.Expr) and isinstance(stmts[0].value, ast.Constant):
+            stmts = stmts[1:]        # docstring
+        body = list(stmts[lo:hi])
         if isinstance(retvar, tuple):
             body.append(ast.Return(value=ast.Tuple(elts=[ast.Name(id=r, ctx=ast.Load()) for r in retvar], ctx=ast.Load())))
         elif retvar is not None:
@@ -726,6 +752,7 @@ def translate(path=SRC):
 
 HEADER = """import BpProofs.PyPrelude
 import BpModel.Fields
+import BpModel.Gen.WireTables
 /- GENERATED by harness/extract_src.py from the Python AST of src/betterproto/__init__.py -- do not edit.
    Each definition is the statement-by-statement translation of the named function / branch. -/
 set_option linter.unusedVariables false
